@@ -123,10 +123,29 @@ def needsQuoteFPinned (v : Bytes) : Bool := v.contains 44 || v.contains 61
 /-- class predicate of finding F08 for field lists (its negation) -/
 def qsafeFieldsPinned : List (Bytes × Bytes) → Bool := qsafeFieldsWith needsQuoteFPinned
 
-def lenOK (p : Bytes × Bytes) : Bool := p.1.length ≤ maxLen && (encField p.2).length ≤ maxLen
+/-- name, value and the printed form of the value all fit the limit the parser applies (to the raw piece, and to the
+unquoted value); for parsed fields the first two always hold (`fromKV_WF`) -/
+def lenOK (p : Bytes × Bytes) : Bool :=
+  p.1.length ≤ maxLen && p.2.length ≤ maxLen && (encField p.2).length ≤ maxLen
 
 def safeFields (ps : List (Bytes × Bytes)) : Bool := qsafeFields ps && ps.all lenOK
 
 def safeFieldsPinned (ps : List (Bytes × Bytes)) : Bool := qsafeFieldsPinned ps && ps.all lenOK
+
+/-- the text `AsKVString` prints for a list of pairs (what `asKV` computes on their encoding: `asKV_encode`) -/
+def kvText (ps : List (Bytes × Bytes)) : Bytes := joinItems (ps.map (item encField))
+
+/-- the decidable hypothesis of `fields_roundtrip_partial` on the binary encoding: it decodes into an even number of
+pieces whose pairs are in the class `safeFields` -/
+def safeF (f : Bytes) : Bool :=
+  match decodeItems f.length f with
+  | some items => items.length % 2 == 0 && safeFields (pairsOf items)
+  | none => false
+
+/-- hypothesis of `provenance_fields_partial` on a tag set: every name and value (and printed value) fits a field, and
+no name starts with a quote (F08c's class: the field parser unquotes names, the tag parser does not) -/
+def fitsFields (m : Map) : Bool :=
+  m.all (fun p => p.1.length ≤ maxLen && p.2.length ≤ maxLen && (encTag p.2).length ≤ maxLen &&
+    p.1.head? != some DQ && p.1.head? != some BQ)
 
 end Logrange.FieldsKV
